@@ -86,6 +86,13 @@ func GenScope(r *simrt.Rand, maxDepth int) *ScopeProg {
 	return p
 }
 
+func (g *scopeGen) bindForm() string {
+	if g.r.Chance(1, 2) {
+		return ""
+	}
+	return []string{"for", "except", "import", "defname", "classname", "tuple", "star", "with"}[g.r.Intn(8)]
+}
+
 func (g *scopeGen) pick() string { return scopeNames[g.r.Intn(len(scopeNames))] }
 
 func (g *scopeGen) fill(sc *Scope, si *scopeInfo, depth, maxDepth int) {
@@ -139,7 +146,7 @@ func (g *scopeGen) fill(sc *Scope, si *scopeInfo, depth, maxDepth int) {
 	}
 	for _, n := range scopeNames {
 		if (si.locals[n] && !isParam[n]) || ((globals[n] || si.nonloc[n]) && r.Chance(2, 3)) {
-			body = append(body, &Stmt{K: "bind", N: n, Tag: g.tag("bind:" + where + ":" + role(n))})
+			body = append(body, &Stmt{K: "bind", N: n, Form: g.bindForm(), Tag: g.tag("bind:" + where + ":" + role(n))})
 		}
 	}
 	nstm := 2 + r.Intn(5)
@@ -151,7 +158,7 @@ func (g *scopeGen) fill(sc *Scope, si *scopeInfo, depth, maxDepth int) {
 			body = append(body, &Stmt{K: "use", N: n, Tag: g.tag("use:" + where + ":" + role(n))})
 		case x < 9:
 			if role(n) != "free" {
-				body = append(body, &Stmt{K: "bind", N: n, Tag: g.tag("bind:" + where + ":" + role(n))})
+				body = append(body, &Stmt{K: "bind", N: n, Form: g.bindForm(), Tag: g.tag("bind:" + where + ":" + role(n))})
 			} else {
 				body = append(body, &Stmt{K: "use", N: n, Tag: g.tag("use:" + where + ":" + role(n))})
 			}
@@ -267,7 +274,7 @@ func (g *scopeGen) injectNegative(p *ScopeProg) {
 // Render produces the Python source.
 func (p *ScopeProg) Render() string {
 	var b strings.Builder
-	b.WriteString("from simlog import log, exc_name\nK = []\n")
+	b.WriteString("from simlog import log, exc_name\nK = []\nclass _CM:\n    def __init__(self, v):\n        self.v = v\n    def __enter__(self):\n        return self.v\n    def __exit__(self, *a):\n        return False\n")
 	renderStmts(&b, p.Root, p.Root.Stmts, 0)
 	b.WriteString("for _k in list(K):\n    try:\n        _k(\"kcall\")\n    except Exception as _e:\n        log(\"kcall\", exc_name(_e))\n")
 	for _, n := range scopeNames {
@@ -296,7 +303,27 @@ func renderStmts(b *strings.Builder, sc *Scope, stmts []*Stmt, ind int) {
 		case "nonlocal":
 			w("nonlocal %s", st.N)
 		case "bind":
-			w("%s = \"%s\"", st.N, st.Tag)
+			switch st.Form {
+			case "for":
+				w("for %s in (\"%s\",):\n    pass", st.N, st.Tag)
+			case "except":
+				// 'except E as n' binds n and deletes it at the end of the handler
+				w("try:\n    raise ValueError(\"%s\")\nexcept ValueError as %s:\n    log(\"%s\", \"handler\", exc_name(%s))", st.Tag, st.N, st.Tag, st.N)
+			case "import":
+				w("import simlog as %s\n%s = \"%s\"", st.N, st.N, st.Tag)
+			case "defname":
+				w("def %s():\n    return \"%s\"\n%s = %s()", st.N, st.Tag, st.N, st.N)
+			case "classname":
+				w("class %s:\n    v = \"%s\"\n%s = %s.v", st.N, st.Tag, st.N, st.N)
+			case "tuple":
+				w("(%s, _u) = (\"%s\", 0)", st.N, st.Tag)
+			case "star":
+				w("%s, *_r = (\"%s\", 1, 2)", st.N, st.Tag)
+			case "with":
+				w("with _CM(\"%s\") as %s:\n    pass", st.Tag, st.N)
+			default:
+				w("%s = \"%s\"", st.N, st.Tag)
+			}
 		case "use":
 			w("try:\n    log(\"%s\", %s)\nexcept NameError as _e:\n    log(\"%s\", exc_name(_e))", st.Tag, st.N, st.Tag)
 		case "del":
